@@ -149,6 +149,17 @@ void ir___cxa_end_catch(void){ }
 #ifdef NEED_ir___cxa_rethrow
 void ir___cxa_rethrow(void){ vp_exc = vp_caught; vp_exc.active = 1; }
 #endif
+#ifdef NEED_ir___dynamic_cast
+/* single-inheritance, offset-0 dynamic_cast: walk the class table from the object's dynamic type */
+void *ir___dynamic_cast(void *sub, void *src, void *dst, u64 hint)
+{
+  if (sub == 0) return 0;
+  const void *const *vptr = *(const void *const **)sub;
+  const void *ti = vptr[-1];
+  for (int k = 0; k < 6 && ti != 0; k++) { if (ti == dst) return sub; ti = vp_ti_parent(ti); }
+  return 0;
+}
+#endif
 #ifdef NEED_ir___cxa_pure_virtual
 void ir___cxa_pure_virtual(void){ __CPROVER_assert(0, "TRAP:pure virtual call"); __CPROVER_assume(0); }
 #endif
